@@ -105,6 +105,16 @@ func MonitorC01(res *Result) []Finding {
 			}
 		}
 	}
+	if len(fs) > 0 && RetryBatchPartial(res.Events) {
+		return []Finding{{"c01:retrybatch-partial-failure", "retryBatch gave up on a batch after failing only part of it (" + fs[0].What + "; " + fs[0].Signature + ")"}}
+	}
+	if len(fs) > 0 && ChaserAsMessage(res.Events) {
+		kind := "plain"
+		if sc.Idempotent {
+			kind = "idempotent"
+		}
+		return []Finding{{"c01:chaser-as-message:" + kind, "a fin marker was accepted as a data message by a broker worker (" + fs[0].What + "; " + fs[0].Signature + ")"}}
+	}
 	return fs
 }
 
@@ -129,14 +139,14 @@ func MonitorC18a(res *Result) []Finding {
 		per[c.ID] = append(per[c.ID], c.Index)
 	}
 	if calls, bad := per[-1]; bad {
-		fs = append(fs, Finding{"c18a:marker-intercepted", fmt.Sprintf("interceptors ran %d time(s) on a message the application did not submit (internal marker)", len(calls))})
+		fs = append(fs, Finding{"c18:producer:intercepted-again", fmt.Sprintf("interceptors ran %d time(s) on a message the application did not submit (internal marker passing the dispatcher)", len(calls))})
 	}
 	for _, m := range sc.Msgs {
 		got := per[m.ID]
 		want := len(sc.Ics)
 		switch {
 		case len(got) > want:
-			fs = append(fs, Finding{"c18a:intercepted-again", fmt.Sprintf("message %d: interceptor calls %v, expected each of %d once", m.ID, got, want)})
+			fs = append(fs, Finding{"c18:producer:intercepted-again", fmt.Sprintf("message %d: interceptor calls %v, expected each of %d once (a retried message was intercepted again)", m.ID, got, want)})
 		case len(got) < want:
 			fs = append(fs, Finding{"c18a:interceptor-skipped", fmt.Sprintf("message %d: interceptor calls %v, expected each of %d once (a panicking interceptor must not stop the chain)", m.ID, got, want)})
 		default:
@@ -164,4 +174,38 @@ func MonitorC18a(res *Result) []Finding {
 		}
 	}
 	return fs
+}
+
+// RetryBatchPartial reports the history shape of the repaired defect fixes/c01_retrybatch.patch: a retryBatch
+// goroutine that neither re-sent its batch nor failed every message of it.
+func RetryBatchPartial(evs []Ev) bool {
+	type rb struct {
+		msgs, errs int
+		sent       bool
+	}
+	by := map[int64]*rb{}
+	for _, e := range evs {
+		switch e.Kind {
+		case "retryBatch.start":
+			n := 0
+			if len(e.Set) > 0 {
+				n = len(e.Set[0].Msgs)
+			}
+			by[e.Goid] = &rb{msgs: n}
+		case "retryBatch.send":
+			if r := by[e.Goid]; r != nil {
+				r.sent = true
+			}
+		case "return.error":
+			if r := by[e.Goid]; r != nil {
+				r.errs++
+			}
+		}
+	}
+	for _, r := range by {
+		if !r.sent && r.errs > 0 && r.errs < r.msgs {
+			return true
+		}
+	}
+	return false
 }
